@@ -8,7 +8,8 @@ Open Scope N_scope.
 Inductive attach_op :=
 | AtGroup (path : list nat) (short long : str) (fs : list field) (ns envns : str) (hidden : bool)
 | AtCommand (path : list nat) (name short long : str) (fs : list field) (exec : exec_kind)
-            (usage : option str) (aliases : list str) (hidden subopt : bool).
+            (usage : option str) (aliases : list str) (hidden subopt : bool)
+| AtOption (path : list nat) (fs : list field).    (* Group.AddOption on the own group of the command at [path] *)
 
 Inductive op :=
 | OpParse (args : list str)
@@ -80,8 +81,29 @@ Definition add_command_at (delim : str) (w : world) (path : list nat) (name shor
                     let 'Command pci pg pargs psubs := c in Command pci pg pargs (psubs ++ [newc]));
         w_rt := w_rt w; w_internal := w_internal w; w_attached := sa_attached sc |}.
 
+(* Group.AddOption(option, &x) on the command's own group: a hand-built Option (its
+   fields are those [make_opt] derives from the leaf's tag; the harness restricts the tag to
+   keys that are Option fields) without a struct field (empty field name, empty tag), bound
+   to a non-nil pointer.  No validation and no duplicate check happen. *)
+Definition add_option_at (w : world) (path : list nat) (fs : list field) : res world :=
+  match fs with
+  | [FLeaf _ _ tag ty fid] =>
+    m <- tag_scan tag ;;
+    oo <- make_opt [] m ty fid ;;
+    match oo with
+    | Some o =>
+      Ok {| w_tree := cmd_update (w_tree w) path (fun c =>
+                        let 'Command ci (Group cgi cos cgs) args subs := c in
+                        Command ci (Group cgi (cos ++ [o]) cgs) args subs);
+            w_rt := w_rt w; w_internal := w_internal w; w_attached := w_attached w |}
+    | None => Panic (s2l "UNMODELLED: AddOption of an option without names")
+    end
+  | _ => Panic (s2l "UNMODELLED: AddOption shape")
+  end.
+
 Definition apply_attach (delim : str) (w : world) (a : attach_op) : res world :=
   match a with
+  | AtOption path fs => add_option_at w path fs
   | AtGroup path short long fs ns envns hidden =>
     add_group_at delim w path short long fs
                  (fun gi => {| g_short := g_short gi; g_long := g_long gi; g_ns := ns; g_envns := envns;
